@@ -490,6 +490,102 @@ Fixpoint le_encode (n : nat) (v : N) : list byte :=
 Definition dump_header (cur : N) (digest optdigest : list byte) : list byte :=
   le_encode 4 cur ++ digest ++ optdigest.
 
+(* ------------------------------------------------------------------------------ entry paths of Network.fromFile
+   The path handed to fromFile: its extension as pathlib's suffix of the LAST component sees it (a directory
+   name with dots does not count; the comparison with the handler table is exact, so `.XODR` is an unknown format). *)
+Inductive entry := EXodr | ESnet | ENoExt | EOther.
+Inductive handler := HXodr | HSnet.
+(* the handler table in its iteration order ("in order of decreasing priority": original maps first, the pickled
+   representation last) *)
+Definition handlers : list handler := [HXodr; HSnet].
+
+Inductive path_result :=
+  | PCache                    (* the pickle, after version, map digest and options digest were compared *)
+  | PPickleAsIs               (* the pickle through fromPickle(path): format version only, options dropped *)
+  | PParsed (wrote : bool)    (* the parser ran on the map with the caller's options; a cache was (not) written *)
+  | PNotFound | PUnknownFormat | PUnpickling.
+
+(* directory state: [mapd] = digest of base.xodr when that file exists, [snet] = content of base.snet when it exists *)
+Definition is_some {A} (o : option A) : bool := match o with Some _ => true | None => false end.
+Definition h_exists (mapd snet : option (list byte)) (h : handler) : bool :=
+  match h with HXodr => is_some mapd | HSnet => is_some snet end.
+Inductive resolution := RHandler (h : handler) | RNotFound | RUnknown.
+(* which candidate is tried: an explicit extension selects its handler without looking at the file system; without
+   an extension the FIRST handler of the table whose file exists is taken *)
+Definition resolve (hs : list handler) (e : entry) (mapd snet : option (list byte)) : resolution :=
+  match e with
+  | EOther => RUnknown
+  | EXodr => RHandler HXodr
+  | ESnet => RHandler HSnet
+  | ENoExt => match find (h_exists mapd snet) hs with Some h => RHandler h | None => RNotFound end
+  end.
+(* ... and which checks it gets: a .snet candidate is loaded as it is (no digests), a map candidate goes through
+   [from_file] (both digests computed from the CURRENT map file and the caller's options) *)
+Definition from_path (hs : list handler) (e : entry) (useCache writeCache : bool) (cur : N)
+           (mapd : option (list byte)) (optd : list byte) (snet : option (list byte)) (payload_ok : bool) : path_result :=
+  match resolve hs e mapd snet with
+  | RUnknown => PUnknownFormat
+  | RNotFound => PNotFound
+  | RHandler HSnet =>
+      match snet with
+      | None => PNotFound
+      | Some file => match from_pickle cur None None file payload_ok with Loaded => PPickleAsIs | _ => PUnpickling end
+      end
+  | RHandler HXodr =>
+      match mapd with
+      | None => PNotFound
+      | Some d => match from_file useCache cur d optd snet payload_ok with
+                  | FromCache => PCache
+                  | FromParser => PParsed writeCache
+                  end
+      end
+  end.
+(* base.snet after the call: rewritten (header of the current map and options, then [payload]) exactly when the
+   parser ran with writeCache; never touched when the network came from a pickle or the call failed *)
+Definition snet_after (hs : list handler) (e : entry) (useCache writeCache : bool) (cur : N)
+           (mapd : option (list byte)) (optd : list byte) (snet : option (list byte)) (payload_ok : bool)
+           (payload : list byte) : option (list byte) :=
+  match from_path hs e useCache writeCache cur mapd optd snet payload_ok, mapd with
+  | PParsed true, Some d => Some (dump_header cur d optd ++ payload)
+  | _, _ => snet
+  end.
+
+(* histories on one directory: loads through any entry path interleaved with changes of the map file and of
+   the cache file; [okf] says which cache contents have a payload that loads *)
+Inductive op :=
+  | OpLoad (e : entry) (useCache writeCache : bool) (optd : list byte)
+  | OpSetMap (mapd : option (list byte))
+  | OpSetSnet (snet : option (list byte)).
+Record load_obs := mkObs { o_entry : entry; o_use : bool; o_mapd : option (list byte); o_optd : list byte;
+                           o_snet : option (list byte); o_res : path_result }.
+Fixpoint run (hs : list handler) (cur : N) (okf : list byte -> bool) (payload : list byte) (ops : list op)
+             (mapd snet : option (list byte)) : list load_obs :=
+  match ops with
+  | [] => []
+  | OpSetMap m :: t => run hs cur okf payload t m snet
+  | OpSetSnet s :: t => run hs cur okf payload t mapd s
+  | OpLoad e u w o :: t =>
+      let ok := match snet with Some f => okf f | None => false end in
+      mkObs e u mapd o snet (from_path hs e u w cur mapd o snet ok)
+      :: run hs cur okf payload t mapd (snet_after hs e u w cur mapd o snet ok payload)
+  end.
+
+(* path cases for the kernel: (entry, useCache, writeCache, current version, map digest if the map exists, options
+   digest, first 76 bytes of base.snet if it exists, payload loads, observed outcome code, observed first 76 bytes of
+   base.snet after the call).  Codes: 0 a pickle was returned, 1 parsed (nothing written), 2 parsed and cache written,
+   3 FileNotFoundError, 4 ValueError, 5 UnpicklingError *)
+Definition path_code (r : path_result) : N :=
+  match r with PCache | PPickleAsIs => 0 | PParsed false => 1 | PParsed true => 2
+             | PNotFound => 3 | PUnknownFormat => 4 | PUnpickling => 5 end%N.
+Definition obytes_eqb (a b : option (list byte)) : bool :=
+  match a, b with None, None => true | Some x, Some y => bytes_eqb x y | _, _ => false end.
+Definition path_case := (entry * bool * bool * N * option (list byte) * list byte * option (list byte) * bool
+                         * N * option (list byte))%type.
+Definition path_ok (c : path_case) : bool :=
+  match c with (e, u, w, cur, mapd, o, snet, ok, code, after) =>
+    N.eqb (path_code (from_path handlers e u w cur mapd o snet ok)) code &&
+    obytes_eqb (option_map (firstn 76) (snet_after handlers e u w cur mapd o snet ok [])) after end.
+
 (* deterministicHash framing: for every key (sorted by str(key)) "\0K" str(key) "\0V" then str(value)
    for int/float/str/bool values, a single NUL for any other value. *)
 Definition frame_value (v : option (list byte)) : list byte := match v with Some s => s | None => [0%N] end.
